@@ -375,9 +375,12 @@ static Boolean DecodeAdr(
 
     /* bleibt PC-relativ aka 'symbolic mode': */
 
+    /* instructions that do not announce a PC distance (e.g. the 430X address
+       instructions) have no symbolic mode */
+
     if (!PCDist) {
-        fprintf(stderr, "internal error: PCDist not set for '%s'\n", OpPart.str.p_str);
-        exit(10);
+        WrStrErrorPos(ErrNum_InvAddrMode, pArg);
+        return False;
     }
     CurrPC = EProgCounter() + PCDist;
 
